@@ -108,6 +108,39 @@ def compare_json(ctx, a, b, label, path=""):
         ctx.require(a == b, f"{label}: value at {path}", f"{a!r} vs {b!r}")
 
 
+def roundtrip_core(ctx, in_system, save_calc, old_version=False):
+    """export, load, compare objects / inputs / recomputed results, export again; -> loaded objects by name (or None)"""
+    system = in_system["system"]
+    js = system_to_json(system, save_calculated_attributes=save_calc)
+    js_in = copy.deepcopy(js)
+    if old_version:
+        js_in["efootprint_version"] = "9.1.4"
+        js_in["Hardware"] = js_in.pop("Device")
+    try:
+        class_obj_dict, flat = json_to_system(js_in)
+    except Exception as e:  # noqa
+        ctx.require(False, "the exported file can be loaded back", f"{type(e).__name__}: {str(e)[:160]}")
+        return None
+    lab = "loaded"
+    ctx.require(set(flat.keys()) == {o.id for o in in_system.values()}, f"{lab}: exactly the objects of the system are restored",
+                str(sorted(set(flat.keys()) ^ {o.id for o in in_system.values()}))[:200])
+    compare_inputs(ctx, in_system, flat, lab)
+    loaded = {name: flat[o.id] for name, o in in_system.items() if o.id in flat}
+    V.observe_system(ctx, loaded, "loaded.")
+    V.compare_systems(ctx, loaded, in_system, "recomputed results of the loaded system = original")
+    if not old_version:
+        try:
+            js2 = system_to_json(loaded["system"], save_calculated_attributes=save_calc)
+        except Exception as e:  # noqa
+            ctx.require(False, "the loaded system can be exported again", f"{type(e).__name__}: {str(e)[:160]}")
+            return None
+        if save_calc:
+            # calculated values carry fresh explanation ids only through object ids, which are preserved
+            pass
+        compare_json(ctx, js, js2, "second export = first export")
+    return loaded
+
+
 def h_roundtrip(ctx, skeleton, save_calc, n=2, args=None, edit=None, post_edit=None, old_version=False, custom_sources=False):
     spec = M.SKELETONS[skeleton](n, **(args or {}))
     # spare jobs (outside the system) must not hang on a server of the system: they would not be exported, yet they are
@@ -138,40 +171,54 @@ def h_roundtrip(ctx, skeleton, save_calc, n=2, args=None, edit=None, post_edit=N
     gt = gt_sets(spec)
     in_system = {k: objs[k] for k in (gt["steps"] + gt["journeys"] + gt["devices"] + gt["countries"] + gt["patterns"]
                                       + gt["jobs"] + gt["networks"] + gt["servers"] + gt["storages"] + ["system"])}
-    js = system_to_json(system, save_calculated_attributes=save_calc)
-    js_in = copy.deepcopy(js)
-    if old_version:
-        js_in["efootprint_version"] = "9.1.4"
-        js_in["Hardware"] = js_in.pop("Device")
-    try:
-        class_obj_dict, flat = json_to_system(js_in)
-    except Exception as e:  # noqa
-        ctx.require(False, "the exported file can be loaded back", f"{type(e).__name__}: {str(e)[:160]}")
+    loaded = roundtrip_core(ctx, in_system, save_calc, old_version)
+    if loaded is None:
         return
-    lab = "loaded"
-    ctx.require(set(flat.keys()) == {o.id for o in in_system.values()}, f"{lab}: exactly the objects of the system are restored",
-                str(sorted(set(flat.keys()) ^ {o.id for o in in_system.values()}))[:200])
-    compare_inputs(ctx, in_system, flat, lab)
-    loaded = {name: flat[o.id] for name, o in in_system.items() if o.id in flat}
-    V.observe_system(ctx, loaded, "loaded.")
-    V.compare_systems(ctx, loaded, in_system, "recomputed results of the loaded system = original")
-    if not old_version:
-        try:
-            js2 = system_to_json(loaded["system"], save_calculated_attributes=save_calc)
-        except Exception as e:  # noqa
-            ctx.require(False, "the loaded system can be exported again", f"{type(e).__name__}: {str(e)[:160]}")
-            return
-        if save_calc:
-            # calculated values carry fresh explanation ids only through object ids, which are preserved
-            pass
-        compare_json(ctx, js, js2, "second export = first export")
     if post_edit:
         e = resolve(ctx, env, env, spec, post_edit, 1)
         spec2, env2 = E.apply(loaded, spec, env, e)
         compare_live_fresh(ctx, loaded, spec2, env2, "edit on the loaded system = fresh build")
 
 
-HARNESSES = {"roundtrip": h_roundtrip}
+def h_roundtrip_builders(ctx, kind, choice, save_calc, edit_slot=None):
+    """systems made with the service builders (video streaming, web application, generative AI on a GPU server) or a
+    cloud-instance server"""
+    from harness import c17
+    from efootprint.abstract_modeling_classes.source_objects import SourceValue, SourceObject
+    from efootprint.constants.units import u
+    sym = {k: v for k, v in c17.sym_for(kind if kind != "cloud" else "web").items() if not k.startswith("up.starts")} if kind != "cloud" else {}
+    sym.update({f"up.k[{i}]": dict(lo=0, hi=10 ** 6, integer=True, nice=(1, 40000)) for i in range(2)})
+    env = M.Env(ctx, symbolic=sym)
+    env = env.child(values={f"up.starts[{i}]": env.get(f"up.k[{i}]", None) / 1000 for i in range(2)})
+    if kind == "cloud":
+        from efootprint.builders.hardware.boavizta_cloud_server import BoaviztaCloudServer
+        from efootprint.core.hardware.storage import Storage
+        from efootprint.core.hardware.server_base import ServerTypes
+        from efootprint.core.usage.job import Job
+        from efootprint.core.system import System
+        st = Storage.from_defaults("st")
+        srv = BoaviztaCloudServer.from_defaults("srv", provider=SourceObject(choice[0]), instance_type=SourceObject(choice[1]),
+                                                server_type=ServerTypes.autoscaling(), storage=st)
+        job = Job("pjob", server=srv, **{p: c17.sv(env, f"pjob.{p}", d, un) for p, d, un in M.PARAMS["job"]})
+        A = dict(srv=srv, st=st, pjob=job, **c17.usage_side(env, [job]))
+        A["system"] = System("system", [A["up"]])
+    else:
+        A, _B = c17.build_pair(ctx, env, kind, choice, mixed=False)
+        if kind == "genai":
+            ctx.assume(V.quantity_base(A["sjob"].request_duration.value)[1] <= 7200)
+    V.observe_system(ctx, A, "orig.")
+    loaded = roundtrip_core(ctx, A, save_calc)
+    if loaded is None or edit_slot is None:
+        return
+    # the loaded system is live: an edit of a builder input gives the same results on the loaded and on the original system
+    name, param, unit = edit_slot
+    new = env.fresh("new." + name + "." + param, lo=0, lo_strict=True, hi=10 ** 4, nice=(1, 100))
+    for objs in (A, loaded):
+        setattr(objs[name], param, SourceValue(new * u(unit)))
+    V.compare_systems(ctx, loaded, A, f"edit of {name}.{param} on the loaded system = same edit on the original")
+
+
+HARNESSES = {"roundtrip": h_roundtrip, "roundtrip_builders": h_roundtrip_builders}
 
 
 def plan(tier, seed):
@@ -182,6 +229,11 @@ def plan(tier, seed):
     p.append(("roundtrip", dict(skeleton="T5", save_calc=False, args={"type1": "on-premise", "type2": "serverless", "fixed1": 5})))
     p.append(("roundtrip", dict(skeleton="T1", save_calc=False, old_version=True)))
     p.append(("roundtrip", dict(skeleton="T1e", save_calc=False)))
+    p.append(("roundtrip_builders", dict(kind="video", choice="1080p (1920 x 1080)", save_calc=False, edit_slot=["sjob", "refresh_rate", "1/s"])))
+    p.append(("roundtrip_builders", dict(kind="web", choice=["php-symfony", "default"], save_calc=True, edit_slot=["sjob", "data_transferred", "MB"])))
+    p.append(("roundtrip_builders", dict(kind="genai", choice=["mistralai", "open-mistral-7b"], save_calc=False, edit_slot=["sjob", "output_token_count", "dimensionless"])))
+    p.append(("roundtrip_builders", dict(kind="cloud", choice=["scaleway", "ent1-s"], save_calc=False, edit_slot=["pjob", "data_transferred", "MB"])))
+    p.append(("roundtrip_builders", dict(kind="cloud", choice=["scaleway", "dev1-s"], save_calc=True)))
     p.append(("roundtrip", dict(skeleton="TX", save_calc=False)))
     p.append(("roundtrip", dict(skeleton="TX", save_calc=True, args={"shared": True})))
     p.append(("roundtrip", dict(skeleton="T1", save_calc=False, custom_sources=True)))
